@@ -223,6 +223,11 @@ class EventGraph:
         cfg = fn.cfg
         if not cfg:
             raise AnalysisBroken('no CFG for ' + fn.sig)
+        # a block that branches but has no element of its own (an if whose condition was computed
+        # by earlier blocks, e.g. after a temporary-destructor branch) still needs a vertex
+        for b in cfg['blocks']:
+            if not b['elems'] and len([s for s in b['succs'] if s is not None]) >= 2:
+                b['elems'] = [{'k': 'synthetic', 'n': -1}]
         blocks = {b['id']: b for b in cfg['blocks']}
         self.blocks = blocks
         self.verts = {}      # vid -> elem dict (with 'b' block id and 'i' index)
